@@ -1,5 +1,7 @@
 /* vsched scenario: concurrent producers / consumers on one detached built-in pool (C07, concurrent half).
- * usage: sc_pool <seed> <mode> <log> <kind> <access> <nprod> <ncons> <nunits> <rounds> [ext%]
+ * usage: sc_pool <seed> <mode> <log> <kind> <access> <nprod> <ncons> <nunits> <rounds> [ext%] [big]
+ *   big    1: large batches (one ABT_pool_push_threads_ex call with 65-130 units, i.e. more than the wrapper's 64-entry
+ *          stack buffer) against consumers whose pop_many can empty the pool
  *   kind   0 FIFO | 1 FIFO_WAIT | 2 RANDWS
  *   access 0 MPMC | 1 SPSC | 2 MPSC | 3 SPMC | 4 PRIV (one actor does everything)
  * The pool PW0 is created with ABT_pool_create_basic(kind, access, automatic = off) and never given to a scheduler.
@@ -14,6 +16,9 @@
  *   - a pop that returns nothing (a pop_many that returns fewer than asked) although more units than that were in the
  *     pool during the whole call: completed pushes minus takes begun by anybody else never fell to that count;
  *   - FIFO kinds: the units one consumer gets from one pusher come in that pusher's push order;
+ *   - one push_many is one atomic multi-push: a pop_many that came back short (so it emptied the pool) while no other
+ *     taker was active must not leave units of a batch it got a unit of in the pool (a strict prefix of the batch); in
+ *     any run of units handed out together, the units of one batch are contiguous (nobody else's unit in between);
  *   - at the end (quiescent): get_size / is_empty are exact, the drain returns exactly the units still pushed, per pusher
  *     in push order (FIFO kinds), then the pool is empty. */
 #define _GNU_SOURCE
@@ -22,7 +27,7 @@
 #include <sched.h>
 #include <unistd.h>
 
-#define MAXU 24
+#define MAXU 160
 enum { K_FIFO = 0, K_FIFO_WAIT = 1, K_RANDWS = 2 };
 enum { ACC_MPMC = 0, ACC_SPSC = 1, ACC_MPSC = 2, ACC_SPMC = 3, ACC_PRIV = 4 };
 static const char *KN[] = { "fifo", "fifo_wait", "randws" };
@@ -49,6 +54,10 @@ static int u_state[MAXU];
 static int u_by[MAXU];    /* actor that pushed it last */
 static long u_seq[MAXU];  /* that actor's push sequence number */
 static int u_pushes[MAXU], u_takes[MAXU], u_ran[MAXU];
+static long u_batch[MAXU]; /* id of the push_many call that pushed it last, 0 = single push */
+static long batch_ids;
+static int big;
+static int n_bigbatch, n_prefixchecks, n_contigchecks;
 static long seq_of[MAX_ACTORS + 1];
 static long last_seq[MAX_ACTORS + 1][MAX_ACTORS + 1]; /* consumer x pusher */
 static int prod_done;
@@ -57,7 +66,7 @@ static int n_push, n_pushmany, n_pop, n_popmany, n_popwait, n_timedwait, n_remov
 
 /* calls that may come back empty-handed: lower bound of the pool's content over the call */
 static struct {
-    int active, cap;
+    int active, cap, overlap; /* overlap: another taker was active at some moment of this call */
     long minlb;
 } tk[MAX_ACTORS + 1];
 
@@ -86,13 +95,17 @@ static int unit_of(ABT_thread h)
 
 static void take_begin(int me, int cap)
 {
+    int others = 0;
     for (int b = 0; b <= MAX_ACTORS; b++)
         if (tk[b].active) {
             long lb = push_done - take_begun - cap; /* without b's own capacity: + tk[b].cap */
             lb += tk[b].cap;
             if (lb < tk[b].minlb)
                 tk[b].minlb = lb;
+            tk[b].overlap = 1;
+            others = 1;
         }
+    tk[me].overlap = others;
     tk[me].active = 1;
     tk[me].cap = cap;
     tk[me].minlb = push_done - take_begun;
@@ -115,7 +128,46 @@ static void mark_pushed(int me, int u)
     u_state[u] = U_IN;
     u_by[u] = me;
     u_seq[u] = ++seq_of[me];
+    u_batch[u] = 0;
     u_pushes[u]++;
+}
+
+/* the units handed out together (one pop_many / the drain) are a contiguous run of the queue: the units of one
+ * push_many batch must be contiguous in it.  `bat` are their batch ids, taken before anything is disposed. */
+static void contig_check(const long *bat, int n, const char *how)
+{
+    n_contigchecks++;
+    for (int l = 2; l < n; l++) {
+        if (bat[l] == 0 || bat[l - 1] == bat[l])
+            continue;
+        for (int i = 0; i < l - 1; i++)
+            if (bat[i] == bat[l]) {
+                vs_fail("%s on PW0: units of one push_many batch are not contiguous (slot %d and slot %d belong to batch %ld, slot %d "
+                        "does not): the batch did not enter the pool atomically", how, i, l, bat[l], l - 1);
+                return;
+            }
+    }
+}
+
+/* a pop_many came back with fewer units than it asked for, i.e. it emptied the pool, and no other taker was active during
+ * the call: a batch it got a unit of must be gone from the pool entirely */
+static void prefix_check(const long *bat, int n, int max)
+{
+    n_prefixchecks++;
+    for (int i = 0; i < n; i++) {
+        if (bat[i] == 0)
+            continue;
+        int left = 0, gotb = 0;
+        for (int v = 0; v < nunits; v++)
+            left += (u_batch[v] == bat[i] && u_state[v] == U_IN);
+        for (int j = 0; j < n; j++)
+            gotb += bat[j] == bat[i];
+        if (left) {
+            vs_fail("pop_many(%d) on PW0 emptied the pool (%d unit(s) returned) and got %d unit(s) of push_many batch %ld, but %d unit(s) of "
+                    "that batch are still to come out: it observed a strict prefix of one push_many", max, n, gotb, bat[i], left);
+            return;
+        }
+    }
 }
 
 static void do_push(actor *a, int u)
@@ -134,17 +186,20 @@ static void do_push_many(actor *a, int *us, int n)
 {
     int head = (kind == K_RANDWS) && sc_rnd(3) == 0;
     ABT_pool_context ctx = head ? ABT_POOL_CONTEXT_OP_THREAD_REVIVE : ABT_POOL_CONTEXT_OP_POOL_OTHER;
-    ABT_thread hs[8];
-    char line[128];
+    ABT_thread hs[MAXU];
+    char line[8 * MAXU + 16];
     int k = 0;
+    long id = ++batch_ids;
     for (int i = 0; i < n; i++) {
         /* head pushes reverse the array order inside the pool: a pusher's later units sit in front.  The order monitor is
          * only used for FIFO kinds, where head is never selected. */
         mark_pushed(a->id, us[i]);
+        u_batch[us[i]] = id;
         hs[i] = U[us[i]];
         k += snprintf(line + k, sizeof line - k, " %d", us[i]);
     }
     n_pushmany++;
+    n_bigbatch += n > 64;
     vs_log("apiCall pushMany PW0 %d%s", head, line);
     ABT_OK(ABT_pool_push_threads_ex(PL, hs, (size_t)n, ctx));
     push_done += n;
@@ -206,7 +261,23 @@ static void producer_round(actor *a, int me_prod)
         mine[i] = mine[j];
         mine[j] = t;
     }
-    if (n >= 2 && sc_rnd(3) == 0) {
+    if (big) {
+        /* one call with more units than the wrapper's 64-entry buffer; wait (bounded) until enough units are back */
+        for (int patience = 60; n < 65 && patience > 0; patience--) {
+            relax(a);
+            n = 0;
+            for (int u = me_prod; u < nunits; u += nprod)
+                if (u_state[u] == U_FREE)
+                    mine[n++] = u;
+        }
+        if (n == 0)
+            return;
+        int k = n < 65 ? n : 65 + sc_rnd(n - 64 < 66 ? n - 64 : 66);
+        if (k >= 2)
+            do_push_many(a, mine, k);
+        else
+            do_push(a, mine[0]);
+    } else if (n >= 2 && sc_rnd(3) == 0) {
         int k = 2 + sc_rnd(n - 1 < 3 ? n - 1 : 3);
         if (k > n)
             k = n;
@@ -232,6 +303,8 @@ static int consumer_op(actor *a, int op)
     int tail = (kind == K_RANDWS) && sc_rnd(3) == 0;
     ABT_pool_context ctx = tail ? ABT_POOL_CONTEXT_OWNER_SECONDARY : ABT_POOL_CONTEXT_OWNER_PRIMARY;
     int me = a->id;
+    if (big)
+        op = op < 65 ? 50 : (op < 85 ? 0 : 65); /* mostly pop_many, some pop, some pop_wait */
     if (op < 40) { /* pop */
         ABT_thread th = ABT_THREAD_NULL;
         n_pop++;
@@ -252,26 +325,31 @@ static int consumer_op(actor *a, int op)
         dispose(a, u);
         return 1;
     } else if (op < 60) { /* pop_many */
-        ABT_thread hs[8];
-        int max = 1 + sc_rnd(4);
-        size_t num = 99;
-        for (int i = 0; i < 8; i++)
+        ABT_thread hs[MAXU + 4];
+        long bat[MAXU + 4];
+        int max = big ? (int[]){ nunits + 2, nunits + 2, 40, 10 }[sc_rnd(4)] : 1 + sc_rnd(4);
+        size_t num = 9999;
+        for (int i = 0; i < MAXU + 4; i++)
             hs[i] = ABT_THREAD_NULL;
         n_popmany++;
         take_begin(me, max);
         vs_log("apiCall popMany PW0 %d %d", max, tail);
         ABT_OK(ABT_pool_pop_threads_ex(PL, hs, (size_t)max, &num, ctx));
-        char line[160];
+        char line[8 * MAXU + 64];
         int k = 0, nonnull = 0, valid = 0;
-        int lim = num <= 8 ? (int)num : 8;
+        int lim = num <= MAXU + 4 ? (int)num : MAXU + 4;
         for (int i = 0; i < lim; i++)
             k += snprintf(line + k, sizeof line - k, " %d", unit_of(hs[i]));
         line[k] = 0;
         vs_note("apiRet popMany PW0 %zu%s", num, line);
-        for (int i = 0; i < 8; i++)
+        for (int i = 0; i < MAXU + 4; i++)
             nonnull += hs[i] != ABT_THREAD_NULL;
-        for (int i = 0; i < lim; i++)
-            valid += unit_of(hs[i]) >= 0;
+        for (int i = 0; i < lim; i++) {
+            int u = unit_of(hs[i]);
+            valid += u >= 0;
+            bat[i] = u >= 0 ? u_batch[u] : 0;
+        }
+        int alone = !tk[me].overlap;
         long lb = take_end(me, valid);
         VSA_CHECK(num <= (size_t)max, "pop_many(%d) on PW0 reported num_popped=%zu", max, num);
         VSA_CHECK((size_t)nonnull == num, "pop_many(%d) on PW0 reported num_popped=%zu but wrote %d non-NULL handle(s)", max, num, nonnull);
@@ -285,6 +363,9 @@ static int consumer_op(actor *a, int op)
             if (!tail)
                 order_check(a, u);
         }
+        contig_check(bat, lim, "pop_many");
+        if ((int)num < max && alone && valid == lim)
+            prefix_check(bat, lim, max);
         if ((int)num < max) {
             n_short++, n_lbchecks++;
             VSA_CHECK(lb <= (long)num, "pop_many(%d) on PW0 returned %zu unit(s) although at least %ld were in the pool during the whole call",
@@ -358,7 +439,7 @@ static int consumer_op(actor *a, int op)
 
 static void consumer_body(actor *a)
 {
-    int budget = rounds * (nprod > ncons ? (nprod + ncons - 1) / ncons : 1) * 2 + 4 + sc_rnd(6);
+    int budget = rounds * (nprod > ncons ? (nprod + ncons - 1) / ncons : 1) * (big ? 4 : 2) + 4 + sc_rnd(6);
     int idle = 0;
     while (budget-- > 0 && !vs_failed()) {
         int done = prod_done >= nprod;
@@ -399,6 +480,7 @@ int main(int argc, char **argv)
     nunits = (int)vsa_param(4, 8);
     rounds = (int)vsa_param(5, 6);
     int extpct = (int)vsa_param(6, 60);
+    big = (int)vsa_param(7, 0) != 0;
     if (kind < 0 || kind > 2)
         kind = 0;
     if (access_mode < 0 || access_mode > 4)
@@ -421,7 +503,7 @@ int main(int argc, char **argv)
         nunits = nprod;
     ABT_init(0, NULL);
     vsa_begin();
-    vs_note("scenario pool kind=%d access=%d nprod=%d ncons=%d nunits=%d rounds=%d", kind, access_mode, nprod, ncons, nunits, rounds);
+    vs_note("scenario pool kind=%d access=%d nprod=%d ncons=%d nunits=%d rounds=%d big=%d", kind, access_mode, nprod, ncons, nunits, rounds, big);
     OFFN("PWpoll", "lock", offsetof(struct poll_data, mutex), sizeof(ABTD_spinlock));
     OFFN("PWpoll", "is_empty", offsetof(struct poll_data, queue) + offsetof(thread_queue_t, is_empty), sizeof(int));
     OFFN("PWpoll", "queue", offsetof(struct poll_data, queue), sizeof(thread_queue_t));
@@ -491,12 +573,17 @@ int main(int argc, char **argv)
         vs_log("apiCall popMany PW0 %d 0", nunits + 2);
         ABT_OK(ABT_pool_pop_threads(PL, hs, (size_t)(nunits + 2), &num));
         {
-            char line[256];
-            int k = 0;
-            for (size_t i = 0; i < num && i < MAXU + 4; i++)
-                k += snprintf(line + k, sizeof line - k, " %d", unit_of(hs[i]));
+            char line[8 * MAXU + 64];
+            long bat[MAXU + 4];
+            int k = 0, nb = 0;
+            for (size_t i = 0; i < num && i < MAXU + 4; i++) {
+                int u = unit_of(hs[i]);
+                k += snprintf(line + k, sizeof line - k, " %d", u);
+                bat[nb++] = u >= 0 ? u_batch[u] : 0;
+            }
             line[k] = 0;
             vs_note("apiRet popMany PW0 %zu%s", num, line);
+            contig_check(bat, nb, "final drain");
         }
         VSA_CHECK((int)num == in, "final drain of PW0 returned %zu unit(s), %d are pushed and not handed out", num, in);
         actor drain = { .id = me };
@@ -518,8 +605,10 @@ int main(int argc, char **argv)
         ABT_OK(ABT_pool_is_empty(PL, &e));
         VSA_CHECK(n == 0 && e == ABT_TRUE, "PW0 not empty after the drain: size=%zu is_empty=%d", n, (int)e);
     }
-    vs_note("pool stats push=%d pushMany=%d pop=%d popMany=%d popWait=%d popTimedwait=%d remove=%d empty=%d short=%d rmfail=%d lbchecks=%d",
-            n_push, n_pushmany, n_pop, n_popmany, n_popwait, n_timedwait, n_remove, n_empty, n_short, n_rmfail, n_lbchecks);
+    vs_note("pool stats push=%d pushMany=%d pop=%d popMany=%d popWait=%d popTimedwait=%d remove=%d empty=%d short=%d rmfail=%d lbchecks=%d "
+            "bigbatch=%d prefixchecks=%d contigchecks=%d",
+            n_push, n_pushmany, n_pop, n_popmany, n_popwait, n_timedwait, n_remove, n_empty, n_short, n_rmfail, n_lbchecks, n_bigbatch,
+            n_prefixchecks, n_contigchecks);
 
     /* let the units run: push them to the primary stream's pool, join, free */
     for (int i = 0; i < nunits; i++)
